@@ -57,7 +57,7 @@ CHECKS = {
         technique="exhaustive crash-point enumeration: every prefix of the recorded datastore mutation log of each workload (batches atomic / non-batched), restart on the materialised prefix, re-issue and continue",
         rule="for every workload (receiver scripts x 3 group types, sender script, first-use-of-keys in 10 orders) and every mutation index a fresh store is started on the surviving datastore; thorough additionally takes every mutation of the continuation as a second crash; distinct = (workload, kind of operation interrupted, number of crashes)",
         assumptions=["a crash loses exactly a suffix of the mutation sequence (no reordering of writes, batches atomic as on badger; the non-batched variant makes every put its own crash point)",
-                     "the interrupted operation is re-issued after restart (as the log replay of the real system does)",
+                     "the interrupted operation is re-issued after restart (as the log replay of the real system does); a re-issued registration must take effect (what it makes openable in a crash-free run is openable) - added after a sub-agent's change stored the chain key before the precomputed keys",
                      "windows of 2 keys, 3-4 messages per sender"],
     ),
     "C11": dict(
